@@ -21,6 +21,7 @@ def groups(tier):
           {'name': 'hash-L%d' % min(L, 3), 'fn': hash_group, 'args': {'L': min(L, 3)}}]
     if tier != 'quick':
         gs.append({'name': 'order-L1', 'fn': order_group, 'args': {'L': 1}})
+        gs.append({'name': 'kani-k4', 'fn': kani_group, 'args': {}, 'timeout_s': 1200})
     gs.append(validation_group(('cmp',), tier))
     return gs
 
@@ -115,3 +116,15 @@ def hash_group(s, L):
     dec = lambda m: {'a': h.dec_version(m, a), 'b': h.dec_version(m, b)}
     s.cover(h, 'equal versions with different build metadata', [e, a.fs[3].len != b.fs[3].len])
     s.prove(h, 'a == b => hash(a) == hash(b) (so build metadata never reaches the hasher)', [], z3.Implies(e, outs[0] == outs[1]), decode=dec, replay=judge_pair, uf=True)
+
+
+def kani_group(s):
+    """the same three laws decided by Kani/CBMC on the compiled code (prerelease lists [] or [Numeric(n)])"""
+    from .. import kani
+    h = s.harness(L=1)
+    a, b, c = h.version('a'), h.version('b'), h.version('c')
+    ab, ba, bc, ac = h.cmp(a, b), h.cmp(b, a), h.cmp(b, c), h.cmp(a, c)
+    e = h.call(h.f_veq, a, b).t
+    goal = AND(ba.tag == 2 - ab.tag, e == (ab.tag == 1), z3.Implies(AND(ab.tag != 2, bc.tag != 2), ac.tag != 2))
+    status, _, _ = h.check(h.wf, goal)
+    kani.cross_check(s, 'k4_cmp_laws', status == 'unsat', 'Version::cmp antisymmetric, == iff Equal, transitive (three versions)')
